@@ -630,6 +630,14 @@ class EnumConverter(Converter):
         if data_type is None or not isinstance(data_type, EnumMeta):
             raise ConverterError(f"'{data_type}' is not an enum")
 
+        if isinstance(value, str):
+            # A str member equal to the text as given, or to the stripped
+            # text, wins over the whitespace collapsed comparison below.
+            for literal in (value, value.strip()):
+                for member in cast(type[Enum], data_type):
+                    if isinstance(member.value, str) and member.value == literal:
+                        return member
+
         if collections.is_array(value):
             values = value
         elif isinstance(value, str):
